@@ -276,8 +276,12 @@ class WireOracle:
             exp_port = 0 if (ts['sport'], ts['eport']) == (0, 65535) else ts['eport']
             if port != exp_port or mask != (0xffff if exp_port else 0):
                 raise OracleError('kernel.selector', f'{what}: {side} port {port}/{mask:#x}, negotiated {ts["sport"]}-{ts["eport"]}')
-        if sel['proto'] != ts_src['proto']:
-            raise OracleError('kernel.selector', f'{what}: IP protocol {sel["proto"]}, negotiated {ts_src["proto"]}')
+        # the protocol the PAIR denotes: a packet must fit both selectors - "any" on one side leaves the choice to the other side
+        pair_proto = ts_src['proto'] if ts_dst['proto'] in (0, ts_src['proto']) else (ts_dst['proto'] if ts_src['proto'] == 0 else None)
+        if pair_proto is None:
+            raise OracleError('kernel.selector', f'{what}: the negotiated selectors name two different IP protocols ({ts_src["proto"]}, {ts_dst["proto"]}): they denote no packet')
+        if sel['proto'] != pair_proto:
+            raise OracleError('kernel.selector', f'{what}: IP protocol {sel["proto"]}, negotiated {pair_proto} (selectors: {ts_src["proto"]} / {ts_dst["proto"]})')
 
 
 MIRROR_FIELDS = ('daddr', 'saddr', 'proto', 'mode', 'family', 'sel')
